@@ -14,7 +14,7 @@ bad=0
 for id in $ids; do
   prop=$(python3 -c "import json;print(json.load(open('seeded/$id/meta.json'))['property'])")
   extra=$(python3 -c "import json;print(' '.join(json.load(open('seeded/$id/meta.json')).get('also_check',[])))")
-  if python3 -c "import json,sys;sys.exit(0 if json.load(open('seeded/$id/meta.json')).get('neutralised_by') else 1)"; then echo "$id $prop: neutralised by a later fix (skipped, see meta.json)"; continue; fi
+  if python3 -c "import json,sys;sys.exit(0 if json.load(open('seeded/$id/meta.json')).get('neutralised_by') else 1)"; then echo "$id $prop: skipped (neutralised or not detectable, see meta.json)"; continue; fi
   (cd "$wt" && git reset -q --hard HEAD && git clean -fdq)
   patch="/verif/seeded/$id/patch.diff"
   # a seed whose context lines were touched by a later fix: commit keeps a copy re-cut against the current HEAD
